@@ -227,6 +227,62 @@ func timeoutFacts(e *env, p func(format string, args ...any)) {
 			return true
 		})
 	}
+	// the streaming client conns merge the trailers into responseTrailer only under `if !<recv>.trailersRead`
+	mergedOnce := true
+	nMerges := 0
+	for _, fn := range []string{"grpcClientConn.Receive", "connectStreamingClientConn.Receive"} {
+		fd, ok := e.funcs[fn]
+		if !ok {
+			e.fail("%s not found", fn)
+			continue
+		}
+		guarded := map[ast.Node]bool{}
+		ast.Inspect(fd.Body, func(n ast.Node) bool {
+			is, ok := n.(*ast.IfStmt)
+			if !ok {
+				return true
+			}
+			mentions := false
+			ast.Inspect(is.Cond, func(k ast.Node) bool {
+				if ue, ok := k.(*ast.UnaryExpr); ok && ue.Op.String() == "!" {
+					if se, ok := ue.X.(*ast.SelectorExpr); ok && se.Sel.Name == "trailersRead" {
+						mentions = true
+					}
+				}
+				return true
+			})
+			if mentions {
+				ast.Inspect(is.Body, func(k ast.Node) bool {
+					if k != nil {
+						guarded[k] = true
+					}
+					return true
+				})
+			}
+			return true
+		})
+		found := false
+		ast.Inspect(fd.Body, func(n ast.Node) bool {
+			ce, ok := n.(*ast.CallExpr)
+			if !ok || len(ce.Args) != 2 {
+				return true
+			}
+			if id, ok := ce.Fun.(*ast.Ident); !ok || id.Name != "mergeHeaders" {
+				return true
+			}
+			if se, ok := ce.Args[0].(*ast.SelectorExpr); ok && se.Sel.Name == "responseTrailer" {
+				found = true
+				nMerges++
+				if !guarded[ce] {
+					mergedOnce = false
+				}
+			}
+			return true
+		})
+		if !found {
+			mergedOnce = false
+		}
+	}
 	b := func(v bool) string {
 		if v {
 			return "true"
@@ -239,5 +295,6 @@ func timeoutFacts(e *env, p func(format string, args ...any)) {
 	p("Definition connect_unary_encoding_cleared_in_new_conn : bool := %s. (* delete(header, connectUnaryHeaderCompression) in connectClient.NewConn *)\n", b(encCleared))
 	p("Definition client_call_unary_stamps_spec_unconditionally : bool := %s. (* NewClient: callUnary's literal assigns request.spec at its top level *)\n", b(stamps))
 	p("Definition content_length_never_consulted : bool := %s. (* uses of .ContentLength / \"Content-Length\" in the sources: %d *)\n", b(clUses == 0), clUses)
+	p("Definition client_trailers_merged_once : bool := %s. (* mergeHeaders(<conn>.responseTrailer, ...) in the two streaming client Receive functions: %d, all under `if !...trailersRead` *)\n", b(mergedOnce), nMerges)
 	p("Definition duplex_on_request_send_inside_once : bool := %s. (* onRequestSend called inside sendRequestOnce.Do before go makeRequest; calls elsewhere: %d *)\n", b(insideOnce), callsElsewhere)
 }
